@@ -39,6 +39,11 @@ pub struct RawVsServer {
 
 /// raw client <-> wtransport server, session established
 pub async fn raw_vs_server(world: &World, ts: &Tweak, tc: &Tweak) -> Result<RawVsServer, String> {
+    raw_vs_server_skip(world, ts, tc, 0).await
+}
+
+/// the same with the CONNECT request on the raw client's (skip+1)-th bidirectional stream: session id = 4 * skip
+pub async fn raw_vs_server_skip(world: &World, ts: &Tweak, tc: &Tweak, skip: usize) -> Result<RawVsServer, String> {
     let server_ep = world.wt_server(ts);
     let accept = async {
         let inc = server_ep.accept().await;
@@ -47,6 +52,12 @@ pub async fn raw_vs_server(world: &World, ts: &Tweak, tc: &Tweak) -> Result<RawV
     };
     let client = async {
         let raw = Raw::connect(world, tc).await?;
+        for _ in 0..skip {
+            let (mut s, r) = raw.conn.open_bi().await.map_err(|e| format!("{e:?}"))?;
+            s.finish().map_err(|e| format!("{e:?}"))?;
+            raw.hold(r);
+            raw.hold(s);
+        }
         let rs = raw.setup_client("localhost", "/").await?;
         let status = rs.fields.iter().find(|(k, _)| k == ":status").map(|(_, v)| v.clone());
         if status.as_deref() != Some("200") {
